@@ -1099,9 +1099,10 @@ def wrap_history(seed, nops=40):
                 u = h.op(f"derive @{k} {rng.choice(['362', '363'])}:str({data or '.'}) @{base} 3={hx(h.new_label())} {flags}" + (f" 0={U(4)} 100={U(kt)}{vlen}" if rng.random() < 0.6 else ""))
             elif c < 0.75:
                 # peers g^i; every third one is searched for a shared secret with a leading zero octet
+                want_short = rng.random() < 0.5
                 while True:
-                    i = rng.randrange(2, 5000); y = pow(2, i, OAKLEY2); z = pow(y, x, OAKLEY2)
-                    if rng.random() < 0.5 or z < 2 ** 1016: break
+                    i = rng.randrange(2, 50000); y = pow(2, i, OAKLEY2); z = pow(y, x, OAKLEY2)
+                    if not want_short or z < 2 ** 1016: break
                 u = h.op(f"derive @{k} 21:{y.to_bytes(128, 'big').hex()} @{dh} 0={U(4)} 100={U(kt)} 3={hx(h.new_label())} 162=01 103=00{vlen}")
             else:
                 Q = p256_mul(rng.randrange(1, 2**255), P256_G)
@@ -1117,5 +1118,131 @@ def wrap_history(seed, nops=40):
             h.op(f"getattr @{k} @{u} 0:8 100:8 11:600 163:1"); h.op(f"getattr @{k} @{u} 103:1 162:1 164:1 165:1"); h.op(f"kcv @{k} @{u}")
             # whatever the outcome, the secret keys of the token are counted
             h.op(f"findinit @{k} 0={U(4)}"); h.minted += 60; h.op(f"find @{k} 300"); h.op(f"findfinal @{k}")
+    h.op("fini")
+    return h.text()
+
+
+# ---------------------------------------------------------------------------------------------------------
+# C10: operations with keys whose values the reference implementations know; arbitrary splits; tampering
+# ---------------------------------------------------------------------------------------------------------
+RSA1024 = {'n': 'c77743e6a1e9fb67c18992e4cae85e33b99f7ca8770a3c5d088325e99a2fd29bce57a3a7d957168c92f91403980946bd48b0b0fc84d96ce309152ffbc1ac46faf92831fbd19794db44a5e7cfca084d717531ad8de2acab043ad17f45f88067c791ba96351ed2cee6b623235951fd813c78520f1fac52c3e4d2a93e862ddb6933',
+           'd': '6a56c8095dcabb302e7ae4a83b10b4a008d6e103832b1ed14e6774bfdc66a07656045d08701340bf42dfad6ed91020f96a966054cf9286bd672b37809558fe217fd7b8621afb471372954527622cfdf1ae2b13730d4ae47c8d2ad8e946bd0ab213ac9d07c72e91693e100fa92a8835980feca9f92bef9fdc17bd120438719889',
+           'p': 'e5b9670320db2f3c4927ed6fd2655f7d5b4ed3ab3986a6d570b2bcd3ebd1ebf3c3cd08639929dec77556a9414b6950d9ebb8419fcabeeb188934fd813410c665',
+           'q': 'de47dcd0692f3624caa50a5d73a4e46c655969baadcb54bbb0fc4541289e0801fa0fa26013645675e09f1fdde7f4d31a2b344980fb1b427a6ad7a1f449e64bb7',
+           'dp': 'a267dc87bda6b7522b75eaca6f37f3b62fe31e89a275ab64a1f3fac2e7a8d4e2d4be12fc36bfff1b8bbce493a0b8a7cc28756f0f84ca4c72602df23a71909a71',
+           'dq': 'c9e4afd5c49413339bb4081415a3e1adeae829b65b80e1b790ebb1e39b06def31cb3f2a21d3af7a51d9eaa8d1dd02ba60b33f4c7684cbc3700b056f3d1e39145',
+           'qi': '23ea736eef7c0e3a003edb0f8396fec3a6192033d3ec765c0a2ceb779b33b2ba001e098d3045bfcff2f47afeb7b91ddf5717957e1b507d0841072ee560bcd0ac'}
+
+
+def splits(rng, data_hex):
+    """cut a hex string into 0..5 pieces at random byte boundaries (empty pieces allowed)"""
+    b = bytes.fromhex(data_hex) if data_hex != "." else b""
+    n = rng.choice([1, 1, 2, 3, 5])
+    cuts = sorted(rng.randrange(0, len(b) + 1) for _ in range(n - 1))
+    out, prev = [], 0
+    for c in cuts + [len(b)]:
+        out.append(b[prev:c].hex() or "."); prev = c
+    return out
+
+
+def flip(rng, hexs):
+    if hexs in (".", ""): return "00"
+    b = bytearray(bytes.fromhex(hexs)); i = rng.randrange(len(b)); b[i] ^= 1 << rng.randrange(8)
+    return bytes(b).hex()
+
+
+def crypto_history(seed, nops=40):
+    rng = random.Random(seed)
+    h = OpsGen(rng)
+    h.prologue(1)
+    t = h.toks[0]
+    k = h.open(t, True); h.login(k, t, 'user')
+    U = ul
+    rb = lambda n: bytes(rng.randrange(256) for _ in range(n)).hex() or "."
+    use = "104=01 105=01 108=01 10a=01 162=01 103=00"
+    aes = [h.op(f"create @{k} 0={U(4)} 100={U(0x1f)} 3={hx(h.new_label())} 11={rb(n)} {use}") for n in (16, 24, 32)]
+    gens = [h.op(f"create @{k} 0={U(4)} 100={U(0x10)} 3={hx(h.new_label())} 11={rb(n)} {use}") for n in (1, 20, 64, 65, 128, 200)]
+    R = RSA1024
+    rpub = h.op(f"create @{k} 0={U(2)} 100={U(0)} 3={hx(h.new_label())} 120={R['n']} 122=010001 10a=01 104=01")
+    rprv = h.op(f"create @{k} 0={U(3)} 100={U(0)} 3={hx(h.new_label())} 120={R['n']} 122=010001 123={R['d']} 124={R['p']} 125={R['q']} 126={R['dp']} 127={R['dq']} 128={R['qi']} 108=01 105=01 2=01 103=00 162=01")
+    d = rng.randrange(1, 2**255); Q = p256_mul(d, P256_G)
+    pt = "0441" + "04" + Q[0].to_bytes(32, "big").hex() + Q[1].to_bytes(32, "big").hex()
+    epub = h.op(f"create @{k} 0={U(2)} 100={U(3)} 3={hx(h.new_label())} 180={P256} 181={pt} 10a=01")
+    eprv = h.op(f"create @{k} 0={U(3)} 100={U(3)} 3={hx(h.new_label())} 180={P256} 11={d.to_bytes(32, 'big').hex()} 108=01 2=01 103=00 162=01")
+    h.minted += 14
+    lens = [0, 1, 15, 16, 17, 31, 32, 33, 47, 48, 64, 100]
+    recorded = []     # (kind, mech token, key ref, plaintext hex, op index of the output) for decrypt / verify of the token's own outputs
+    for _ in range(nops):
+        r = rng.random()
+        if r < 0.40:      # symmetric encryption, single or in pieces; then decryption of the result, untouched or tampered
+            key = rng.choice(aes)
+            mech = rng.choice(["1081", f"1082:{rb(16)}", f"1085:{rb(16)}", f"1086:ctr({rng.choice([128, 64, 32, 16, 8])},{rng.choice([rb(16), 'ff' * 16, '00' * 15 + 'fe'])})",
+                               f"1087:gcm({rb(rng.choice([12, 12, 1, 16, 60]))},{rng.choice(['', rb(5), rb(16), rb(33)]).replace('.', '')},{rng.choice([128, 128, 96, 64, 32])})"])
+            n = rng.choice(lens if mech[:4] in ("1085", "1086", "1087") else [0, 16, 32, 48, 64, 17])
+            ptx = rb(n)
+            h.op(f"encinit @{k} {mech} @{key}")
+            outs = []
+            if rng.random() < 0.4:
+                outs.append(h.op(f"enc @{k} {ptx} 600"))
+            else:
+                for piece in splits(rng, ptx): outs.append(h.op(f"encupd @{k} {piece} 600"))
+                outs.append(h.op(f"encfinal @{k} 600"))
+            recorded.append(("enc", mech, key, ptx, outs))
+        elif r < 0.55 and recorded:      # decrypt a ciphertext produced by the reference-compatible encrypt: rebuilt from the SAME plaintext by encrypting again is not possible
+            # instead: decrypt reference-style inputs made by python is impossible without AES here; so the token decrypts its OWN ciphertext through a relay op
+            kind, mech, key, ptx, outs = rng.choice(recorded)
+            tam = rng.random()
+            mech2 = mech
+            if tam < 0.25 and ":" in mech:        # tamper with IV / AAD / counter block
+                head, par = mech.split(":", 1)
+                if par.startswith("gcm("):
+                    a = par[4:-1].split(","); j = rng.choice([0, 1]) if a[1] else 0; a[j] = flip(rng, a[j]); mech2 = f"{head}:gcm({','.join(a)})"
+                elif par.startswith("ctr("):
+                    a = par[4:-1].split(","); a[1] = flip(rng, a[1]); mech2 = f"{head}:ctr({','.join(a)})"
+                else: mech2 = f"{head}:{flip(rng, par)}"
+            h.op(f"decinit @{k} {mech2} @{key}")
+            # relay: the pieces are the outputs of the recorded encrypt calls (op `decrelay` feeds them back, optionally with one bit flipped)
+            fl = rng.random() < 0.25
+            h.op(f"decrelay @{k} {','.join(str(o) for o in outs)} {'flip' if fl else 'same'} {rng.choice(['single', 'multi'])} {rng.randrange(1 << 30)}")
+        elif r < 0.75:      # MACs and signatures
+            c = rng.random()
+            data = rb(rng.choice(lens))
+            if c < 0.45:
+                mech = rng.choice(["221", "256", "251", "261", "271"]); key = rng.choice(gens)
+            elif c < 0.6:
+                mech = "108a"; key = rng.choice(aes)
+            elif c < 0.85:
+                mech = rng.choice(["1", "6", "46", "40", "41", "42"]); key = rprv
+                if mech == "1": data = rb(rng.choice([0, 20, 35, 51, 117]))
+            else:
+                mech = "1041"; key = eprv; data = rb(rng.choice([20, 32, 32, 48]))
+            h.op(f"siginit @{k} {mech} @{key}")
+            if rng.random() < 0.5 or mech in ("1", "1041"):
+                so = h.op(f"sign @{k} {data} 600")
+            else:
+                for piece in splits(rng, data): h.op(f"sigupd @{k} {piece}")
+                so = h.op(f"sigfinal @{k} 600")
+            # verification of the token's own signature: untouched, data changed, signature changed
+            vkey = {rprv: rpub, eprv: epub}.get(key, key)
+            for variant in rng.sample(["same", "data", "sig", "sig"], 2):
+                h.op(f"verinit @{k} {mech} @{vkey}")
+                d2 = flip(rng, data) if variant == "data" else data
+                h.op(f"verrelay @{k} {d2} {so} {'flip' if variant == 'sig' else 'same'} {rng.choice(['single', 'multi']) if mech not in ('1', '1041') else 'single'} {rng.randrange(1 << 30)}")
+        elif r < 0.9:       # digests
+            mech = rng.choice(["220", "255", "250", "260", "270"]); data = rb(rng.choice(lens + [200]))
+            h.op(f"diginit @{k} {mech}")
+            if rng.random() < 0.4: h.op(f"digest @{k} {data} 600")
+            else:
+                for piece in splits(rng, data): h.op(f"digupd @{k} {piece}")
+                h.op(f"digfinal @{k} 600")
+        else:               # the token verifies / decrypts what a foreign implementation made: a MAC computed over data by python (HMAC only)
+            import hmac as _h, hashlib as _hl
+            mech, hn = rng.choice([("221", "sha1"), ("251", "sha256"), ("271", "sha512")])
+            kv = bytes(rng.randrange(256) for _ in range(rng.choice([8, 32, 100])))
+            key = h.op(f"create @{k} 0={U(4)} 100={U(0x10)} 3={hx(h.new_label())} 11={kv.hex()} {use}"); h.minted += 1
+            data = bytes(rng.randrange(256) for _ in range(rng.choice(lens)))
+            mac = _h.new(kv, data, getattr(_hl, hn)).hexdigest()
+            h.op(f"verinit @{k} {mech} @{key}"); h.op(f"verify @{k} {data.hex() or '.'} {mac}")
+            h.op(f"verinit @{k} {mech} @{key}"); h.op(f"verify @{k} {data.hex() or '.'} {flip(rng, mac)}")
     h.op("fini")
     return h.text()
